@@ -3,7 +3,7 @@ import json, os, shutil, subprocess, time
 from . import fsmat, nsplane
 from .common import scratch
 
-def run_copy(probe, sc, driver, updater, cfg, run_id, env=None, timeout=60, strace_inject=None, keep=False):
+def run_copy(probe, sc, driver, updater, cfg, run_id, env=None, timeout=60, strace_inject=None, keep=False, measure=False):
     """sc: name-space scenario (sources / dest as args).  Returns dict(stream=[...], end={...}|None, timed_out, rc, before, after)."""
     root = os.path.join(scratch(), "pr-%s" % run_id)
     shutil.rmtree(root, ignore_errors=True)
@@ -14,7 +14,14 @@ def run_copy(probe, sc, driver, updater, cfg, run_id, env=None, timeout=60, stra
     srcs = [nsplane.render(a, names, root).decode() for a in sc["sources"]]
     dest = nsplane.render(sc["dest"], names, root).decode()
     cmd = [probe, "copy", driver, updater, json.dumps(cfg), dest] + srcs
-    if strace_inject:
+    tracefile = root + ".strace"
+    if measure:
+        sc_ = ["strace", "-f", "-y", "-o", tracefile, "-e", "trace=copy_file_range,pwrite64,write,sendfile" + ("," + strace_inject.split(":")[0] if strace_inject else ""),
+               "-e", "signal=none"]
+        if strace_inject:
+            sc_ += ["-e", "inject=" + strace_inject]
+        cmd = sc_ + cmd
+    elif strace_inject:
         cmd = ["strace", "-f", "-o", "/dev/null", "-e", "trace=" + strace_inject.split(":")[0], "-e", "inject=" + strace_inject, "-e", "signal=none"] + cmd
     e = dict(os.environ)
     if env:
@@ -43,7 +50,24 @@ def run_copy(probe, sc, driver, updater, cfg, run_id, env=None, timeout=60, stra
         else:
             stream.append(j)
     after = fsmat.snapshot(root, names, contents)
-    res = {"stream": stream, "end": end, "timed_out": timed_out, "rc": p.returncode, "wall": wall, "stderr": err.decode(errors="replace")[-400:],
+    transferred = -1
+    if measure and os.path.exists(tracefile):
+        from . import s2e
+        transferred = 0
+        droot = os.path.join(root, dest) if not dest.startswith("/") else dest
+        for r in s2e.parse(tracefile):
+            if r["kind"] != "sys" or r["ret"] is None or r["ret"] <= 0:
+                continue
+            if r["sys"] == "copy_file_range":
+                fd, path = s2e.fdpath(r["args"][2])
+            elif r["sys"] in ("pwrite64", "write", "sendfile"):
+                fd, path = s2e.fdpath(r["args"][0])
+            else:
+                continue
+            if path and (path == droot or path.startswith(droot + "/") or path.startswith(droot)):
+                transferred += r["ret"]
+        os.unlink(tracefile)
+    res = {"transferred": transferred,"stream": stream, "end": end, "timed_out": timed_out, "rc": p.returncode, "wall": wall, "stderr": err.decode(errors="replace")[-400:],
            "before": before, "after": after, "root": root}
     if not keep:
         shutil.rmtree(root, ignore_errors=True)
